@@ -39,6 +39,9 @@ type c10Pos struct {
 	TakeProf math.LegacyDec
 	LiabZero bool
 	PredErr  string
+	// perpetual: custody after ONE settlement of the interest and funding accrued up to the probe block (what a third party's
+	// request may take out of a position it is not allowed to close)
+	Settled math.Int
 }
 
 func (w *World) lpPositions(ctx sdk.Context) map[uint64]lptypes.Position {
@@ -127,6 +130,7 @@ func (w *World) c10Predict(dt time.Duration) []c10Pos {
 				return
 			}
 			cp.Health = h
+			cp.Settled = m.Custody
 		}()
 		if pr, err := app.PerpetualKeeper.GetAssetPrice(ctx, m.TradingAsset); err == nil {
 			cp.Price = pr
@@ -391,7 +395,25 @@ func runC10(t *testing.T, seed int64, n int, out *Out) {
 				}
 				msg = &perptypes.MsgClosePositions{Creator: bot.Addr.String(), Liquidate: pLiq, StopLoss: pSl, TakeProfit: pTp}
 			}
-			res := w.Block(dt, []TxReq{{Signer: bot, Msgs: []sdk.Msg{msg}}})
+			// half of the time a second bot repeats the very same request later in the same block: nothing has accrued in between,
+			// so it must find nothing to take
+			repeated := r.Intn(2) == 0
+			breqs := []TxReq{{Signer: bot, Msgs: []sdk.Msg{msg}}}
+			if repeated {
+				other := bots[0]
+				if other == bot {
+					other = bots[1]
+				}
+				var msg2 sdk.Msg
+				if module == "lp" {
+					msg2 = &lptypes.MsgClosePositions{Creator: other.Addr.String(), Liquidate: lpLiq, StopLoss: lpSl}
+				} else {
+					msg2 = &perptypes.MsgClosePositions{Creator: other.Addr.String(), Liquidate: pLiq, StopLoss: pSl, TakeProfit: pTp}
+				}
+				breqs = append(breqs, TxReq{Signer: other, Msgs: []sdk.Msg{msg2}})
+				stats["closePositions/repeated"]++
+			}
+			res := w.Block(dt, breqs)
 			if res.Err != nil || res.Panicked {
 				out.Line(J{"t": "c10.blockfail", "id": wi, "err": res.PanicText})
 				break
@@ -455,7 +477,7 @@ func runC10(t *testing.T, seed int64, n int, out *Out) {
 				stats["case/"+c.Module]++
 				out.Line(J{"t": "c10.case", "id": wi, "round": round, "module": c.Module, "pos": c.Id, "owner": c.Owner, "requested": rq, "sweep": c.Module == "lp",
 					"txCode": res.Txs[0].Code, "health": decRaw(c.Health), "safety": decRaw(sf), "price": decRaw(c.Price), "stopLoss": decRaw(c.StopLoss), "takeProfit": decRaw(c.TakeProf),
-					"long": c.Long, "liabZero": c.LiabZero, "predErr": c.PredErr, "othersChanged": others,
+					"long": c.Long, "liabZero": c.LiabZero, "predErr": c.PredErr, "othersChanged": others, "repeated": repeated, "settledSize": c10IntStr(c.Settled),
 					"before": J{"size": c.Size.String(), "collateral": c.Coll.String(), "principal": c.Princ.String()}, "after": after, "ownerDelta": delta})
 			}
 			// an owner-scoped close from someone else must fail
@@ -498,4 +520,11 @@ func sortedU64[V any](m map[uint64]V) []uint64 {
 	}
 	sort.Slice(ks, func(i, j int) bool { return ks[i] < ks[j] })
 	return ks
+}
+
+func c10IntStr(x math.Int) string {
+	if x.IsNil() {
+		return ""
+	}
+	return x.String()
 }
